@@ -176,6 +176,8 @@ func (a *inMemoryAdapter) apply(opts *BroadcastOptions, callback func(socket Soc
 	a.mu.Lock()
 
 	exceptSids := a.computeExceptSids(opts.Except)
+	// The sockets are selected in one critical section; the callbacks run after the lock is released.
+	var selected []Socket
 
 	// If a room was specificed in opts.Rooms,
 	// we only use sockets in those rooms.
@@ -194,9 +196,7 @@ func (a *inMemoryAdapter) apply(opts *BroadcastOptions, callback func(socket Soc
 				}
 				socket, ok := a.sockets.Get(sid)
 				if ok {
-					a.mu.Unlock()
-					callback(socket)
-					a.mu.Lock()
+					selected = append(selected, socket)
 					ids.Add(sid)
 				}
 				return false
@@ -210,13 +210,15 @@ func (a *inMemoryAdapter) apply(opts *BroadcastOptions, callback func(socket Soc
 			}
 			socket, ok := a.sockets.Get(sid)
 			if ok {
-				a.mu.Unlock()
-				callback(socket)
-				a.mu.Lock()
+				selected = append(selected, socket)
 			}
 		}
 	}
 	a.mu.Unlock()
+
+	for _, socket := range selected {
+		callback(socket)
+	}
 }
 
 // Beware that the return value 'exceptSids' is thread unsafe.
